@@ -62,18 +62,21 @@ let mode_dumps () =
             | Some (Some (_, a)), Some (Some (_, b)) ->
                 if a = b then Printf.printf "same %s %s ok\n" x y
                 else begin
-                  let rec first a b = match a, b with
-                    | u :: ta, v :: tb -> if u = v then first ta tb else (u, v)
-                    | u :: _, [] -> (u, "<end>") | [], v :: _ -> ("<end>", v) | [], [] -> ("", "") in
-                  let (u, v) = first a b in
-                  (* the differing fields only *)
-                  let fu = Stdlib.String.split_on_char ' ' u and fv = Stdlib.String.split_on_char ' ' v in
-                  let key = (match fu with k :: i :: _ -> k ^ i | _ -> "?") in
-                  let rec dif a b = match a, b with
-                    | p :: ta, q :: tb -> if p = q then dif ta tb else (p ^ "->" ^ q) :: dif ta tb
-                    | _, _ -> [] in
-                  let ds = if Stdlib.List.length fu = Stdlib.List.length fv then dif fu fv else [u ^ " -> " ^ v] in
-                  Printf.printf "same %s %s DIFF nlines=%d/%d at=%s %s\n" x y (Stdlib.List.length a) (Stdlib.List.length b) key (Stdlib.String.concat " " ds)
+                  (* every differing line: "O<id> ty=<t> <field=a->field=b> ..." (other lines verbatim), at most 8 *)
+                  let dif_fields u v =
+                    let fu = Stdlib.String.split_on_char ' ' u and fv = Stdlib.String.split_on_char ' ' v in
+                    if Stdlib.List.length fu <> Stdlib.List.length fv then u ^ " -> " ^ v else begin
+                      let rec dif a b = match a, b with
+                        | p :: ta, q :: tb -> if p = q then dif ta tb else (p ^ "->" ^ q) :: dif ta tb
+                        | _, _ -> [] in
+                      let head = (match fu with k :: i :: ty :: _ when k = "O" -> "O" ^ i ^ " " ^ ty | k :: i :: _ -> k ^ i | _ -> "?") in
+                      head ^ " " ^ Stdlib.String.concat " " (dif fu fv)
+                    end in
+                  let rec all a b n = if n = 0 then ["..."] else match a, b with
+                    | u :: ta, v :: tb -> if u = v then all ta tb n else dif_fields u v :: all ta tb (n - 1)
+                    | u :: _, [] -> ["<end> vs " ^ u] | [], v :: _ -> ["<end> vs " ^ v] | [], [] -> [] in
+                  Printf.printf "same %s %s DIFF nlines=%d/%d | %s\n" x y (Stdlib.List.length a) (Stdlib.List.length b)
+                    (Stdlib.String.concat " | " (all a b 8))
                 end
             | _ -> Printf.printf "same %s %s SKIP\n" x y)
        | ["echo"; "DISALLOWED"; x; y] ->
